@@ -822,3 +822,29 @@ Definition hb_races (its : list item) : list (nat * nat) :=
   race_pairs (hb_acc (hb_run {| hb_c := []; hb_lw := []; hb_lr := []; hb_acc := [] |} 0 its)).
 
 Definition hb_race_free (its : list item) : bool := is_nil (hb_races its).
+
+(** regression examples of the detector (the shapes of the seeded change C07-9 and of the code as it is) *)
+
+(** a lookup that releases the read lock before the walk, against a delete that mutates the published tree
+    in place under the write lock: the walk and the mutation are not ordered *)
+Example hb_detects_unlocked_walk :
+  hb_races [IBegin 2 0; ILk 2 (ERLock 1); IGet 2 2 1; ILk 2 (ERUnlock 1);
+            IBegin 0 3; ILk 0 (ELock 0); IGet 0 1 0; ILk 0 (ELock 1); IGet 0 2 1; IObj 0 1 true; ILk 0 (EUnlock 1);
+            IPut 0 1 0; ILk 0 (EUnlock 0); IEnd 0;
+            IObj 2 1 false; IEnd 2] = [(9, 14)].
+Proof. vm_compute. reflexivity. Qed.
+
+(** copy-on-write: the clone is written while private, published under the write lock, walked under the read lock *)
+Example hb_accepts_copy_on_write :
+  hb_race_free [IBegin 1 0; ILk 1 (ERLock 1); IGet 1 2 1; IObj 1 1 false; ILk 1 (ERUnlock 1); IEnd 1;
+                IBegin 0 1; ILk 0 (ELock 0); IGet 0 2 1; IClone 0 2 1; IObj 0 2 true; IGet 0 1 0; IPut 0 1 0;
+                ILk 0 (ELock 1); IPut 0 2 2; ILk 0 (EUnlock 1); ILk 0 (EUnlock 0); IEnd 0;
+                IBegin 1 0; ILk 1 (ERLock 1); IGet 1 2 2; IObj 1 2 false; ILk 1 (ERUnlock 1); IEnd 1] = true.
+Proof. vm_compute. reflexivity. Qed.
+
+(** the same without the read lock around the load: the pointer field itself races *)
+Example hb_detects_unlocked_load :
+  hb_races [IBegin 0 1; ILk 0 (ELock 0); IGet 0 2 1; IClone 0 2 1; ILk 0 (ELock 1); IPut 0 2 2; ILk 0 (EUnlock 1);
+            ILk 0 (EUnlock 0); IEnd 0;
+            IBegin 1 0; IGet 1 2 2; IObj 1 2 false; IEnd 1] <> [].
+Proof. vm_compute. discriminate. Qed.
